@@ -151,6 +151,7 @@ func (e *Env) gensimTexts(nGen int, thorough bool) []GText {
 		GText{"many-rules", manyRules(270)},
 		GText{"bad-action", hdr + "S <- 'a' { this is ( not go } T\nT <- 'b'\n"},
 		GText{"layered-9", layered(9)},
+		GText{"layered-12-no-lr", layeredNoLR(12)},
 		GText{"lr-mutual", hdr + "S <- A 'q' / C\nA <- C 'x'\nC <- A / 'z'\n"},
 		GText{"lr-indirect3", hdr + "S <- A\nA <- B 'a' / 'x'\nB <- C 'b' / 'y'\nC <- A 'c' / 'z'\n"},
 		GText{"lr-nullable-prefix", hdr + "S <- A !.\nA <- B? A 'x' / 'y'\nB <- 'b'*\n"},
@@ -237,6 +238,20 @@ func layered(n int) string {
 		fmt.Fprintf(&sb, "E%d <- E%d '+' E%d / E%d\n", i, i+1, i, i+1)
 	}
 	fmt.Fprintf(&sb, "E%d <- 'a' / '(' E0 ')' / Tail\nTail <- Tail 'x' / 'y'\n", n)
+	return sb.String()
+}
+
+// layeredNoLR: the same tower without the left-recursive tail: the recursion
+// check still takes 2^n steps (a second of real time for n = 18) but issues
+// no warnings, so it stays cheap in memory. Long-running analyses are where
+// time budgets and clocks creep in.
+func layeredNoLR(n int) string {
+	var sb strings.Builder
+	sb.WriteString("package p\n\ntype T Peg {}\n\nStart <- E0 !.\n")
+	for i := 0; i < n; i++ {
+		fmt.Fprintf(&sb, "E%d <- E%d '+' E%d / E%d\n", i, i+1, i, i+1)
+	}
+	fmt.Fprintf(&sb, "E%d <- 'a' / '(' E0 ')'\n", n)
 	return sb.String()
 }
 
